@@ -206,6 +206,9 @@ def r3_checkpoint_whole_table(ctx):
 
 
 def run(ctx):
+    # E-drop (rules/dropped.py): no bool result of a function of these modules is thrown away by a caller anywhere in the workspace
+    from . import dropped
+    dropped.rule_dropped(ctx, "C17.R7", [k for k in ["cascette_formats", "cascette_client_storage", "cascette_cache", "cascette_protocol", "cascette_ribbit"] if k in (CRATES or [])] or CRATES, r"client-storage/src/lru/", floor=5)
     # E-stale (rules/stale.py): no snapshot of a self field is written back after a call that may have changed it
     from . import stale
     stale.rule_stale(ctx, "C17.R6", "cascette_client_storage", r"src/lru/", floor=3)
@@ -221,4 +224,4 @@ def run(ctx):
 
 
 from .selftest import for_families as _ff  # noqa: E402
-selftest = _ff(['gate', 'dirty', 'stale'])
+selftest = _ff(['gate', 'dirty', 'stale', 'drop'])
